@@ -280,7 +280,8 @@ func Generate(r *sim.Rng, prop, tier string, idx int) *sim.Case {
 	for _, k := range keys {
 		for att := 1; att <= 6; att++ {
 			if r.Chance(1, 7) {
-				c.Faults = append(c.Faults, sim.Fault{Seam: "loader", Kind: "fail", Node: k, Ord: int64(att)})
+				// some creations fail by panicking (the caller recovers)
+				c.Faults = append(c.Faults, sim.Fault{Seam: "loader", Kind: sim.Pick(r, "fail", "fail", "cpanic"), Node: k, Ord: int64(att)})
 			}
 			if c.Knobs["flavor"] == 2 && r.Chance(1, 4) {
 				// a slow creation: the item may be past its expiry by the time it is handed out
@@ -410,7 +411,8 @@ func genConc(r *sim.Rng, c *sim.Case, keys []string) {
 	for _, k := range keys {
 		for att := 1; att <= 8; att++ {
 			if r.Chance(1, 6) {
-				c.Faults = append(c.Faults, sim.Fault{Seam: "loader", Kind: "fail", Node: k, Ord: int64(att)})
+				// some creations fail by panicking: their waiters must be released all the same
+				c.Faults = append(c.Faults, sim.Fault{Seam: "loader", Kind: sim.Pick(r, "fail", "fail", "cpanic"), Node: k, Ord: int64(att)})
 			}
 			if r.Chance(1, 5) {
 				c.Faults = append(c.Faults, sim.Fault{Seam: "loader", Kind: "sleep", Node: k, Ord: int64(att), D: int64(sim.Pick(r, time.Microsecond, time.Millisecond))})
